@@ -18,7 +18,8 @@ RULE = ("cases = (replace-mode catalogue form, secret class, enclosing text, tra
         "when that function is reachable. distinct_nontrivial = distinct (form, class, sub-label, head, tail, "
         "first salt character) combinations whose slot was replaced.")
 ASSUMPTIONS = ["forms with a known C07 finding are not drawn (C09 presupposes the secret was recognised)",
-               "type-7 plaintexts must decode to printable ASCII under salts 00..15"]
+               "type-7 plaintexts must decode to printable ASCII under salts 00..15",
+               "a decryptable $9$ replacement decrypts to a non-empty printable-ASCII password (what a device accepts)"]
 DECIDING = ["replacements_decoded"]
 
 REPLACE_FORMS = [f for f in S.CATALOGUE if f["mode"] == "replace"]
@@ -99,6 +100,8 @@ def cases(ctx):
             if S.c07_leaky(f, cls, trail):
                 continue
             first = rng.choice(SALT_FIRST)
+            if cls in ("j9", "j9bad") and rng.random() < 0.3:
+                first = rng.choice(SALT_FIRST[len(decoders.J9_ALPHABET):] + ["#", "!", "~", "ü"])  # outside the $9$ alphabet
             yield {"kind": "one", "form": fid, "cls": cls, "trail": trail, "rseed": rng.getrandbits(32),
                    "salt": first + rng.choice(["", "alt", "Z9", "saltForTest"]),
                    "quote": list(rng.choice(S.QUOTES)) if f["quote"] else ["", ""],
@@ -125,6 +128,9 @@ def check_format(cls, orig, rep):
     if cls in ("j9", "j9bad"):
         if not decoders.j9_wellformed(rep) or decoders.j9_decode(rep) is None:
             return "not a decryptable $9$ string"
+        plain = decoders.j9_decode(rep)
+        if not plain or any(not (32 < ord(c) < 127) for c in plain):
+            return "$9$ string that decrypts to %r, not to a printable password" % plain[:24]
         return None
     if cls == "numeric":
         return None if re.fullmatch(r"[0-9]+", rep) else "not all-digit"
